@@ -20,22 +20,33 @@ import (
 
 // LeaseScenario is one generated scenario.
 type LeaseScenario struct {
-	Kind       string `json:"kind"`                  // hold | death | unlockrace
-	LeaseMs    int    `json:"lease_ms"`              // lease period
-	Periods    int    `json:"periods,omitempty"`     // hold: duration in lease periods
-	FailCas    []int  `json:"fail_cas,omitempty"`    // hold: renewal calls (1-based) that fail transiently
-	PhasePct   int    `json:"phase_pct,omitempty"`   // death: the holder dies at this % of the lease after locking or after a renewal
-	Renewals   int    `json:"renewals,omitempty"`    // death: number of successful renewals before the death
-	After      bool   `json:"after,omitempty"`       // unlockrace: the renewal in flight is applied before Unlock runs
-	Same       bool   `json:"same,omitempty"`        // handoff: the second tenure is on the same Locker object (else on another provider's)
-	DelayPct   int    `json:"delay_pct,omitempty"`   // hold: every renewal call takes this % of the lease to reach the storage
-	Waiters    int    `json:"waiters,omitempty"`     // death: number of lockers parked in Lock() when the holder dies (default 1)
-	Wait10     int    `json:"wait10,omitempty"`      // waithold: the second locker waits this many tenths of a lease in Lock() before it gets the lock
-	OnlyExcl   bool   `json:"only_excl,omitempty"`   // waithold: judge mutual exclusion only (C01), not the stored record (C05)
-	Acquire    string `json:"acquire,omitempty"`     // hold: "" = Lock(); "lockctx" / "trylock": acquired with a context that is cancelled right after the acquisition, on a storage that refuses done contexts
-	HoldCreate bool   `json:"hold_create,omitempty"` // relock: the Create of the second tenure is in flight while the late renewal of the first completes
-	Hold10     int    `json:"hold10,omitempty"`      // unlockfail: the lock is held this many tenths of a lease before the failing Unlock
-	Applied    bool   `json:"applied,omitempty"`     // unlockfail: the Delete is applied and only its reply is lost
+	Kind       string        `json:"kind"`                  // hold | death | unlockrace
+	LeaseMs    int           `json:"lease_ms"`              // lease period
+	Periods    int           `json:"periods,omitempty"`     // hold: duration in lease periods
+	FailCas    []int         `json:"fail_cas,omitempty"`    // hold: renewal calls (1-based) that fail transiently
+	PhasePct   int           `json:"phase_pct,omitempty"`   // death: the holder dies at this % of the lease after locking or after a renewal
+	Renewals   int           `json:"renewals,omitempty"`    // death: number of successful renewals before the death
+	After      bool          `json:"after,omitempty"`       // unlockrace: the renewal in flight is applied before Unlock runs
+	Same       bool          `json:"same,omitempty"`        // handoff: the second tenure is on the same Locker object (else on another provider's)
+	DelayPct   int           `json:"delay_pct,omitempty"`   // hold: every renewal call takes this % of the lease to reach the storage
+	Waiters    int           `json:"waiters,omitempty"`     // death: number of lockers parked in Lock() when the holder dies (default 1)
+	Wait10     int           `json:"wait10,omitempty"`      // waithold: the second locker waits this many tenths of a lease in Lock() before it gets the lock
+	OnlyExcl   bool          `json:"only_excl,omitempty"`   // waithold: judge mutual exclusion only (C01), not the stored record (C05)
+	Acquire    string        `json:"acquire,omitempty"`     // hold: "" = Lock(); "lockctx" / "trylock": acquired with a context that is cancelled right after the acquisition, on a storage that refuses done contexts
+	HoldCreate bool          `json:"hold_create,omitempty"` // relock: the Create of the second tenure is in flight while the late renewal of the first completes
+	Hold10     int           `json:"hold10,omitempty"`      // unlockfail: the lock is held this many tenths of a lease before the failing Unlock
+	Applied    bool          `json:"applied,omitempty"`     // unlockfail: the Delete is applied and only its reply is lost
+	Blocking   bool          `json:"blocking,omitempty"`    // hold: the contender tries with a blocking LockWithCtx (a tenth of a lease) instead of TryLock
+	FailCreate []int         `json:"fail_create,omitempty"` // hold: the contender's k-th Create fails: k > 0 request lost, k < 0 the (-k)-th is applied and its reply lost
+	Locks      int           `json:"locks,omitempty"`       // multi: number of locks one process holds
+	Stagger10  int           `json:"stagger10,omitempty"`   // multi: tenths of a lease between the acquisitions
+	Unlocks    []MultiUnlock `json:"unlocks,omitempty"`     // multi: which locks are unlocked when
+}
+
+// MultiUnlock: lock I is unlocked At10 tenths of a lease after the last acquisition.
+type MultiUnlock struct {
+	I    int `json:"i"`
+	At10 int `json:"at10"`
 }
 
 var leaseMu sync.Mutex
@@ -103,6 +114,8 @@ func runLease(s LeaseScenario) (info LeaseInfo, v *vstat.Violation, exact bool) 
 		return runRelock(s)
 	case "unlockfail":
 		return runUnlockFail(s)
+	case "multi":
+		return runMulti(s)
 	}
 	panic("bad scenario " + s.Kind)
 }
@@ -125,6 +138,13 @@ func runHold(s LeaseScenario) (info LeaseInfo, v *vstat.Violation, exact bool) {
 		fa.FailCas(k)
 	}
 	fa.CasDelay = L * time.Duration(s.DelayPct) / 100
+	for _, k := range s.FailCreate {
+		if k > 0 {
+			fb.FailCreate(k, false)
+		} else {
+			fb.FailCreate(-k, true)
+		}
+	}
 	pa, pb := newProvider(fa, L), newProvider(fb, L)
 	defer pa.Shutdown()
 	defer pb.Shutdown()
@@ -160,19 +180,29 @@ func runHold(s LeaseScenario) (info LeaseInfo, v *vstat.Violation, exact bool) {
 		time.Sleep(L / 5)
 		info.Samples++
 		now := time.Now()
-		r, err := inner.Get(ctx, leaseKey)
-		if err != nil {
-			return info, vstat.V("lease:record-gone-while-held", "lease %v: %.1f leases after Lock the record of the held lock is not in the storage (%v); renewal calls so far:%s",
-				L, float64(now.Sub(t0))/float64(L), err, describeEvents(fa.Events(), t0)), false
+		if !s.OnlyExcl {
+			r, err := inner.Get(ctx, leaseKey)
+			if err != nil {
+				return info, vstat.V("lease:record-gone-while-held", "lease %v: %.1f leases after Lock the record of the held lock is not in the storage (%v); renewal calls so far:%s\n  calls of the contender:%s",
+					L, float64(now.Sub(t0))/float64(L), err, describeEvents(fa.Events(), t0), describeEvents(fb.Events(), t0)), false
+			}
+			if r.ExpiresAt == nil || !r.ExpiresAt.After(now) {
+				return info, vstat.V("lease:record-expired-while-held", "lease %v: %.1f leases after Lock the record's expiration %v is not in the future; renewal calls so far:%s",
+					L, float64(now.Sub(t0))/float64(L), r.ExpiresAt, describeEvents(fa.Events(), t0)), false
+			}
 		}
-		if r.ExpiresAt == nil || !r.ExpiresAt.After(now) {
-			return info, vstat.V("lease:record-expired-while-held", "lease %v: %.1f leases after Lock the record's expiration %v is not in the future; renewal calls so far:%s",
-				L, float64(now.Sub(t0))/float64(L), r.ExpiresAt, describeEvents(fa.Events(), t0)), false
+		got := false
+		if s.Blocking {
+			cctx, ccancel := context.WithTimeout(ctx, L/10)
+			got = b.LockWithCtx(cctx) == nil
+			ccancel()
+		} else {
+			got = b.TryLock(ctx)
 		}
-		if b.TryLock(ctx) {
+		if got {
 			b.Unlock()
-			return info, vstat.V("lease:contender-acquired-while-held", "lease %v: %.1f leases after Lock a contender's TryLock succeeded while the lock is held; renewal calls so far:%s",
-				L, float64(now.Sub(t0))/float64(L), describeEvents(fa.Events(), t0)), false
+			return info, vstat.V("lease:contender-acquired-while-held", "lease %v: %.1f leases after Lock a contender acquired the lock while it is held; renewal calls so far:%s\n  calls of the contender:%s",
+				L, float64(now.Sub(t0))/float64(L), describeEvents(fa.Events(), t0), describeEvents(fb.Events(), t0)), false
 		}
 	}
 	// the renewal log shows attempts continuing after every injected failure
@@ -194,10 +224,14 @@ func runHold(s LeaseScenario) (info LeaseInfo, v *vstat.Violation, exact bool) {
 	}
 	a.Unlock()
 	unlocked = true
-	if !b.TryLock(ctx) {
+	// a contender whose storage calls are not being failed by the harness
+	pc := newProvider(gated.NewFaulty(inner), L)
+	defer pc.Shutdown()
+	c := pc.NewLocker("lease")
+	if !c.TryLock(ctx) {
 		return info, vstat.V("lease:not-released", "lease %v: after Unlock a contender's TryLock returns false", L), true
 	}
-	b.Unlock()
+	c.Unlock()
 	return info, nil, false
 }
 
@@ -721,6 +755,67 @@ func runUnlockFail(s LeaseScenario) (info LeaseInfo, v *vstat.Violation, exact b
 	b.Unlock()
 	if v := judge(); v != nil {
 		return info, v, true
+	}
+	return info, nil, false
+}
+
+// multi: one process holds several locks, acquired a few tenths of a lease apart, and unlocks some of them at chosen moments
+// while nothing else in the process uses the timer machinery; the locks that stay held must keep their records alive
+// (present, unexpired) for three leases after the last acquisition. The scenario must run alone in the process.
+func runMulti(s LeaseScenario) (info LeaseInfo, v *vstat.Violation, exact bool) {
+	L := time.Duration(s.LeaseMs) * time.Millisecond
+	inner := inmem.New()
+	fa := gated.NewFaulty(inner)
+	pa := newProvider(fa, L)
+	defer pa.Shutdown()
+	ctx := context.Background()
+	names := make([]string, s.Locks)
+	lockers := make([]interface{ Unlock() }, s.Locks)
+	held := make([]bool, s.Locks)
+	t0 := time.Now()
+	for i := range names {
+		names[i] = fmt.Sprintf("multi%d", i)
+		lk := pa.NewLocker(names[i])
+		lk.Lock()
+		lockers[i], held[i] = lk, true
+		if i < s.Locks-1 {
+			time.Sleep(L * time.Duration(s.Stagger10) / 10)
+		}
+	}
+	defer func() {
+		for i, h := range held {
+			if h {
+				lockers[i].Unlock()
+			}
+		}
+	}()
+	t1 := time.Now()
+	unl := append([]MultiUnlock(nil), s.Unlocks...)
+	for time.Since(t1) < 3*L {
+		time.Sleep(L / 10)
+		now := time.Now()
+		for j := 0; j < len(unl); j++ {
+			if u := unl[j]; now.Sub(t1) >= L*time.Duration(u.At10)/10 {
+				if u.I < s.Locks && held[u.I] {
+					lockers[u.I].Unlock()
+					held[u.I] = false
+				}
+				unl = append(unl[:j], unl[j+1:]...)
+				j--
+			}
+		}
+		info.Samples++
+		now = time.Now()
+		for i, h := range held {
+			if !h {
+				continue
+			}
+			r, err := inner.Get(ctx, lockPath+names[i])
+			if err != nil || r.ExpiresAt == nil || !r.ExpiresAt.After(now) {
+				return info, vstat.V("lease:record-expired-while-held", "lease %v: a process holds %d locks (acquired %.1f leases apart) and unlocked some of them (%v); %.1f leases after the last acquisition the record of the still held lock %q is missing or expired (err=%v); storage calls of the process:%s",
+					L, s.Locks, float64(s.Stagger10)/10, s.Unlocks, float64(now.Sub(t1))/float64(L), names[i], err, describeEvents(fa.Events(), t0)), false
+			}
+		}
 	}
 	return info, nil, false
 }
